@@ -347,3 +347,33 @@ void h_C01_fill_mly_ymcw(void)
 	}
 	SENTINEL("fill_mly_ymcw");
 }
+
+/* BYSETPOS=P on a candidate set of 0..3 days (native list, rank order) */
+void h_C01_clr_poss(void)
+{
+	IN_RANGE(unsigned, n, 0, 3);
+	IN_RANGE(int, c1, 1, 383); IN_RANGE(int, c2, 1, 383); IN_RANGE(int, c3, 1, 383);
+	IN_RANGE(int, p, -4, 4);
+	ASSUME(p != 0 && c1 < c2 && c2 < c3);
+	static bitint383_t cand[1], poss[1];
+	memset(cand, 0, sizeof(cand));
+	memset(poss, 0, sizeof(poss));
+	cand->pos[0] = n << 1U;
+	if (n > 0U) { cand->neg[0] = c1; }
+	if (n > 1U) { cand->neg[1] = c2; }
+	if (n > 2U) { cand->neg[2] = c3; }
+	poss->neg[0] = p;
+	poss->pos[0] = 2U;
+	const int cs[3] = {c1, c2, c3};
+	clr_poss(cand, poss);
+	const int k = p > 0 ? p : (int)n + 1 + p;	/* 1-based rank asked for */
+	if (1 <= k && k <= (int)n) {
+		ASSERT(!BS_383(cand) && CNT_383(cand) == 1U && cand->neg[0] == cs[k - 1], "BYSETPOS=P keeps exactly the P-th (P-th last) day of the set");
+		SENTINEL("clr_poss kept");
+	} else {
+		ASSERT(!BS_383(cand) && CNT_383(cand) == 0U, "BYSETPOS beyond the size of the set keeps nothing");
+		SENTINEL("clr_poss nothing");
+	}
+	if (p < 0 && n == 3U) { SENTINEL("clr_poss from the end"); }
+	SENTINEL("clr_poss");
+}
